@@ -250,7 +250,10 @@ class FileDataPdu(AbstractPduBase):
                 )
             metadata = data[current_idx : current_idx + segment_metadata_len]
             current_idx += segment_metadata_len
-            file_data_packet.segment_metadata = SegmentMetadata(
+            # Do not use the setter here: it would re-calculate the PDU data field length
+            # before the file data is known. The unpacked header already holds the length
+            # and the segment metadata flag.
+            file_data_packet._params.segment_metadata = SegmentMetadata(
                 record_cont_state=rec_cont_state, metadata=metadata
             )
         if not file_data_packet.pdu_header.large_file_flag_set:
